@@ -5,6 +5,8 @@ names and on the pseudo file names `<file>.go:<line>` that parse.go gives to str
 -/
 import Genq.Model.Files
 import Genq.Model.Errors
+import Genq.Model.ConvSkel
+import Genq.Extracted.Conv
 namespace Genq.Files
 
 section Lemmas
@@ -151,3 +153,13 @@ example : (wrapAll [("validating: ".toList, [])] (errorf none [] []
     (.gqlList [("ops.graphql".toList, some 4, "Unknown field".toList)]))).text = "ops.graphql:4: validating: Unknown field".toList := by decide
 
 end Genq.Errors
+
+namespace Genq
+
+/-- **C18_parse_tie** — how sources get their (pseudo) file names, as in /repo now (regenerated on every run), equal to the copy the model was written from -/
+theorem C18_parse_tie : Extracted.parseSkeleton = ConvSkel.parseSkeleton := rfl
+
+/-- **C18_errors_tie** — errorPos.String, splitFilename, genqlientError.Error, errorf, as in /repo now (regenerated on every run), equal to the copy the model was written from -/
+theorem C18_errors_tie : Extracted.errorsSkeleton = ConvSkel.errorsSkeleton := rfl
+
+end Genq
